@@ -37,6 +37,13 @@ def main():
         print("patch does not apply")
         return 2
     results = {}
+    # evidence / replays written while the patch is applied describe the patched tree: keep the
+    # committed ones aside and put them back afterwards
+    import shutil, tempfile
+    keep = tempfile.mkdtemp(prefix="evid_keep_")
+    for d in ("evidence", "replays"):
+        if os.path.isdir(os.path.join(VERIF, d)):
+            shutil.copytree(os.path.join(VERIF, d), os.path.join(keep, d))
     try:
         for p in props:
             t0 = time.time()
@@ -51,6 +58,11 @@ def main():
         subprocess.run(["git", "-C", "/repo", "checkout", "--", "."])
         # patches may add new files under src/
         subprocess.run(["git", "-C", "/repo", "clean", "-fdq", "--", "src"])
+        for d in ("evidence", "replays"):
+            shutil.rmtree(os.path.join(VERIF, d), ignore_errors=True)
+            if os.path.isdir(os.path.join(keep, d)):
+                shutil.copytree(os.path.join(keep, d), os.path.join(VERIF, d))
+        shutil.rmtree(keep, ignore_errors=True)
         # restore evidence of the unchanged tree is the caller's business (re-run the checks)
     fired = [p for p, r in results.items() if r["rc"] == 1]
     print("fired:", ",".join(fired) or "-")
